@@ -537,6 +537,38 @@ pub fn run(tier: &str, seed: u64, dir: &str) {
             let op = h.done();
             sink.case(&op, &eval(&op), "cmd-sequences", true);
         }
+        // 7b. sticky answers are repeated until the next ACCEPTED Class A downlink: frames that are
+        // not accepted (fresh counter but foreign key, bit flips, replays, junk) heard in the
+        // windows in between change nothing
+        let nst = if thorough { 300 } else { 36 };
+        for i in 0..nst {
+            let mut h = Hist::new("C08", region, 20, 0, rng.next() & 0xffff, &[], None);
+            h.go_live();
+            h.abp();
+            h.send(1, false, &[0x31]);
+            let cmd = match i % 3 {
+                0 => rx_param_setup_req(0, crate::macsuites::default_rx2(region).0),
+                1 => rx_timing_setup_req(1 + (i as u8 % 14)),
+                _ => if is_fixed(region) { rx_timing_setup_req(2) } else { dl_channel_req(0, lo + 700_000) },
+            };
+            h.rx_auth("rx1", 2, 1, false, &cmd, None, &[]).snap();
+            for _ in 0..2 + rng.below(2) {
+                h.send(1, rng.chance(1, 4), &[0x32]);
+                let (b, hint, _) = rejected_frame(&mut rng, &h);
+                let w = if rng.chance(1, 2) { "rx1" } else { "rx2" };
+                h.rx_bytes(w, 0, &b, hint);
+                if h.last_out().starts_with("resp=DownlinkReceived") {
+                    if let Some(f) = hint {
+                        h.last_down = Some(f);
+                    }
+                    break;
+                }
+                h.timeout().snap();
+            }
+            h.send(1, false, &[0x33]).timeout().snap();
+            let op = h.done();
+            sink.case(&op, &eval(&op), "sticky-vs-rejected-frames", true);
+        }
         // 8. answers owed for a Class A downlink survive Class C receptions before the next uplink
         let nrxc = if thorough { 600 } else { 40 };
         for i in 0..nrxc {
